@@ -75,6 +75,25 @@ def check(ctx):
         if not ok:
             ctx.violation("R-C04.1", f"brace-callback:{cb}", f"the lexer must call {cb} exactly once, under the test that the token just produced is {tok}; found {[(m, S.unparse(_nearest_if(c).test) if _nearest_if(c) else None) for m, c in calls[cb]]}", file=lx.rel, function="CLexer._match_token")
     scope_stack_never_empty(ctx, "R-C04.1")
+    # every scope that is opened is a table of its own: the stack grows only by one fresh empty dict at a time (a table shared between
+    # two levels would let a name declared in an inner block survive the closing brace, or hide one in the outer block)
+    grows = []
+    for mname, fn in px.methods("CParser").items():
+        for n in ast.walk(fn):
+            if isinstance(n, ast.Call) and isinstance(n.func, ast.Attribute) and n.func.attr in ("append", "insert", "extend", "__iadd__") and S.unparse(n.func.value) == "self._scope_stack":
+                grows.append((mname, n))
+            if isinstance(n, ast.AugAssign) and S.unparse(n.target) == "self._scope_stack":
+                grows.append((mname, n))
+    if not grows:
+        raise AnalysisError("no statement grows the scope stack (scope typestate not recognised)")
+    for mname, n in grows:
+        fresh = isinstance(n, ast.Call) and n.func.attr == "append" and len(n.args) == 1 and ((isinstance(n.args[0], ast.Dict) and not n.args[0].keys)
+                                                                                                or (isinstance(n.args[0], ast.Call) and isinstance(n.args[0].func, ast.Name) and n.args[0].func.id == "dict" and not n.args[0].args and not n.args[0].keywords))
+        ok = fresh and mname == "_push_scope"
+        ctx.oblige("R-C04.1", f"{mname}: `{S.unparse(n)[:50]}` opens a fresh scope table", ok, sample={"rule": "R-C04.1", "method": mname, "construct": S.unparse(n)[:60], "verdict": "fresh empty dict" if ok else "NOT a fresh table"})
+        if not ok:
+            ctx.violation("R-C04.1", f"scope-grow:{mname}:{" ".join(S.unparse(n).split())[:50]}", f"{mname}: `{S.unparse(n)[:70]}` - the scope stack must grow only in _push_scope and only by a fresh empty dict: a table that is shared with another level "
+                          "(or pre-filled) makes declarations of one block visible in, or survive into, another", file=px.rel, function=f"CParser.{mname}", line=n.lineno)
     parse = px.method("CParser", "parse")
     fresh = [n for n in parse.body if isinstance(n, ast.Assign) and any(isinstance(t, ast.Attribute) and t.attr == "_scope_stack" for t in n.targets)]
     ok = bool(fresh) and isinstance(fresh[0].value, ast.List) and len(fresh[0].value.elts) == 1
@@ -326,9 +345,21 @@ def _check_id_action(ctx, lx):
         kw_first = first.startswith("_keyword_map.get(") and first.endswith(", 'ID')")
         second = body[1]
         lookup = isinstance(second, ast.If) and "type_lookup_func" in S.unparse(second.test) and "== 'ID'" in S.unparse(second.test) and S.unparse(second.test).index("== 'ID'") < S.unparse(second.test).index("type_lookup_func")
+        # ... and nothing but those two tests decides: every non-keyword identifier is put to the typedef lookup, whatever surrounds it
+        if lookup:
+            conj = second.test.values if isinstance(second.test, ast.BoolOp) and isinstance(second.test.op, ast.And) else [second.test]
+            inner = second
+            while len(inner.body) == 1 and isinstance(inner.body[0], ast.If) and not inner.body[0].orelse and not inner.orelse:
+                inner = inner.body[0]
+                conj = conj + (inner.test.values if isinstance(inner.test, ast.BoolOp) and isinstance(inner.test.op, ast.And) else [inner.test])
+            extra = [c for c in conj if not ((isinstance(c, ast.Compare) and S.unparse(c).endswith("== 'ID'")) or (isinstance(c, ast.Call) and isinstance(c.func, ast.Attribute) and c.func.attr == "type_lookup_func"))]
+            if extra:
+                lookup = False
+                why_extra = f"; the lookup is also conditioned on `{S.unparse(extra[0])}`"
+            second = inner if not extra else second
         sets_typeid = lookup and any(isinstance(s, ast.Assign) and isinstance(s.value, ast.Constant) and s.value.value == "TYPEID" for s in second.body)
         ok = kw_first and lookup and sets_typeid and len(body) == 2
-        why = f"keyword map first={kw_first}, lookup only for non-keywords={lookup}, TYPEID only there={sets_typeid}"
+        why = f"keyword map first={kw_first}, lookup exactly for non-keywords={lookup}, TYPEID only there={sets_typeid}" + locals().get("why_extra", "")
     typeid_elsewhere = [n for n in ast.walk(lx.tree) if isinstance(n, ast.Constant) and n.value == "TYPEID"]
     ctx.oblige("R-C04.2", "identifier action: keyword map, then typedef lookup", ok and len(typeid_elsewhere) == 1, sample={"rule": "R-C04.2", "verdict": why})
     if not (ok and len(typeid_elsewhere) == 1):
